@@ -318,8 +318,19 @@ theorem decSig_encSig (s : Sig) : decSig (encSig s) = if s.any then some s else 
     simp only [decSig, encSig, PB.has, PB.get, List.lookup, Option.getD, optBool_optB]
     cases t <;> simp [Sig.any]
 
-theorem decSigD_encSig (s : Sig) (h : s.any = true) : decSigD (encSig s) = s := by
-  simp [decSigD, decSig_encSig, h]
+theorem eq_emptySig_of_not_any (s : Sig) (h : s.any = false) : s = emptySig := by
+  cases s with
+  | mk t horn il ir bl hw fb =>
+    cases t <;> cases horn <;> cases il <;> cases ir <;> cases bl <;> cases hw <;> cases fb <;>
+      simp_all [Sig.any, emptySig]
+
+/-- an entry of a signal series comes back as it was; an object without any slot comes back as "nothing set" (the reader
+    appends the `None` that SignalStateFactory returns, which the snapshot shows as the all-unset signal state) -/
+theorem decSigD_encSig (s : Sig) : decSigD (encSig s) = s := by
+  by_cases h : s.any = true
+  · simp [decSigD, decSig_encSig, h]
+  · have h' : s.any = false := by simpa using h
+    simp [decSigD, decSig_encSig, h', (eq_emptySig_of_not_any s h').symm]
 
 @[simp] theorem items_rep (l : List PB) : (PB.rep l).items = l := rfl
 
@@ -350,16 +361,15 @@ theorem decSig0_enc (o : Option Sig) (fs : List (String × PB)) (h : fs.lookup "
   | none => simp [decSig0, PB.has, PB.get, h, normSig0]
   | some s => simp [decSig0, PB.has, PB.get, h, normSig0, decSig_encSig]
 
-theorem map_decSigD_encSig (l : List Sig) (h : l.all Sig.any = true) : (l.map encSig).map decSigD = l := by
-  rw [List.map_map]
-  conv => rhs; rw [← List.map_id l]
-  apply List.map_congr_left
-  intro s hs
-  exact decSigD_encSig s (List.all_eq_true.mp h s hs)
+theorem map_decSigD_encSig (l : List Sig) : (l.map encSig).map decSigD = l :=
+  map_map_id _ _ decSigD_encSig l
+
+theorem map_decSigD_comp (l : List Sig) : l.map (decSigD ∘ encSig) = l := by
+  rw [← List.map_map]; exact map_decSigD_encSig l
 
 /-! ### obstacles and planning problems -/
 
-theorem decStatic_enc (o : StaticObs) (hw : o.init.wf = true) (hs : o.series.all Sig.any = true) :
+theorem decStatic_enc (o : StaticObs) (hw : o.init.wf = true) :
     decStatic (encStatic o) = normStatic o := by
   cases o with
   | mk id type shape init sig0 series =>
@@ -369,7 +379,7 @@ theorem decStatic_enc (o : StaticObs) (hw : o.init.wf = true) (hs : o.series.all
        ("signal_series", PB.rep (series.map encSig))] = _)
     simp only [encStatic] at *
     simp only [decStatic, h0, normStatic]
-    simp [PB.get, List.lookup, PB.int, PB.enumD, decInitState_encState _ hw, map_decSigD_encSig _ hs]
+    simp [PB.get, List.lookup, PB.int, PB.enumD, decInitState_encState _ hw, map_decSigD_comp]
 
 theorem decPred_encDynamic (o : DynObs) (hp : (match o.pred with | some p => p.wf | none => true) = true) :
     decPred (encDynamic o) = o.pred.map normPred := by
@@ -385,7 +395,7 @@ theorem decPred_encDynamic (o : DynObs) (hp : (match o.pred with | some p => p.w
       | set q =>
         simp [decPred, encDynamic, PB.has, PB.get, List.lookup, encTrajPred, encSetPredOf, normPred]
 
-theorem decDynamic_enc (o : DynObs) (hw : o.init.wf = true) (hs : o.series.all Sig.any = true)
+theorem decDynamic_enc (o : DynObs) (hw : o.init.wf = true)
     (hp : (match o.pred with | some p => p.wf | none => true) = true) :
     decDynamic (encDynamic o) = normDynamic o := by
   have hpred := decPred_encDynamic o hp
@@ -398,7 +408,7 @@ theorem decDynamic_enc (o : DynObs) (hw : o.init.wf = true) (hs : o.series.all S
        ("set_based_prediction", encSetPredOf pred)] = _)
     simp only [encDynamic] at *
     simp only [decDynamic, h0, hpred, normDynamic]
-    simp [PB.get, List.lookup, PB.int, PB.enumD, decInitState_encState _ hw, map_decSigD_encSig _ hs]
+    simp [PB.get, List.lookup, PB.int, PB.enumD, decInitState_encState _ hw, map_decSigD_comp]
 
 @[simp] theorem decEnvObs_enc (o : EnvObs) : decEnvObs (encEnvObs o) = o := by
   cases o; simp [decEnvObs, encEnvObs, PB.get, List.lookup, PB.int, PB.enumD]
@@ -525,6 +535,196 @@ theorem decLight_enc (t : Light) : decLight (encLight t) = normLight t := by
 
 @[simp] theorem decInfo_enc (i : Info) : decInfo (encInfo i) = i := by
   cases i; simp [decInfo, encInfo, PB.get, List.lookup, PB.strD, PB.dblD]
+
+/-! ### which class a written state is matched to, stated on the snapshot -/
+
+theorem lookup_isSome_eq_contains {β : Type} (a : String) : ∀ l : List (String × β),
+    (l.lookup a).isSome = (l.map Prod.fst).contains a
+  | [] => rfl
+  | (k, v) :: r => by
+    have ih := lookup_isSome_eq_contains a r
+    simp only [List.lookup_cons, List.map_cons, List.contains_cons]
+    cases h : a == k <;> simp [ih]
+
+theorem filter_length_eq_filterMap {α β : Type} (p : α → Bool) (f : α → Option β) : ∀ l : List α,
+    (∀ a ∈ l, p a = (f a).isSome) → (l.filter p).length = (l.filterMap f).length
+  | [], _ => rfl
+  | a :: r, h => by
+    have h1 := h a (List.mem_cons_self ..)
+    have ih := filter_length_eq_filterMap p f r (fun b hb => h b (List.mem_cons_of_mem _ hb))
+    cases hf : f a with
+    | none => simp [List.filter_cons, List.filterMap_cons, h1, hf, ih]
+    | some b => simp [List.filter_cons, List.filterMap_cons, h1, hf, ih]
+
+theorem has_encState_time (s : St) (hw : s.wf = true) : (encState s).has "time_step" = true := by
+  simp [PB.has, get_encState_time s hw]
+
+theorem has_encState_point_or_shape (s : St) (hw : s.wf = true) :
+    ((encState s).has "point" || (encState s).has "shape") = s.pos.isSome := by
+  have hp := get_encState_other s hw "point" not_mem_stateFields_point (by decide)
+  have hs := get_encState_other s hw "shape" not_mem_stateFields_shape (by decide)
+  simp only [PB.has, hp, hs]
+  cases s.pos with
+  | none => simp [encPos]
+  | some q => cases q <;> simp [encPos, List.lookup_cons]
+
+theorem usedFields_length (s : St) (hw : s.wf = true) :
+    (usedFields (encState s)).length = (if s.pos.isSome then 1 else 0) + (s.attrs.map Prod.fst).length + 1 := by
+  have hp := get_encState_other s hw "point" not_mem_stateFields_point (by decide)
+  have hs := get_encState_other s hw "shape" not_mem_stateFields_shape (by decide)
+  have hf : (stateFields.filter (encState s).has).length = s.attrs.length := by
+    rw [filter_length_eq_filterMap _ (fun n => (s.attrs.lookup n).map (fun v => (n, v))) stateFields
+      (fun n hn => by simp [has_encState_attr s hw n hn])]
+    rw [filterMap_lookup stateFields stateFields_nodup s.attrs hw]
+  simp only [usedFields, List.length_append, hf, has_encState_time s hw, if_true, List.length_cons, List.length_nil,
+    List.length_map]
+  simp only [PB.has, hp, hs]
+  cases s.pos with
+  | none => simp [encPos]
+  | some q => cases q <;> simp [encPos, List.lookup_cons]
+
+theorem fillsAttr_encState (s : St) (hw : s.wf = true) (a : String) :
+    fillsAttr (encState s) a =
+      (if a == "position" then s.pos.isSome else if a == "time_step" then true else (s.attrs.map Prod.fst).contains a) := by
+  unfold fillsAttr
+  by_cases h1 : a = "position"
+  · subst h1; simp [has_encState_point_or_shape s hw]
+  · have e1 : (a == "position") = false := beq_false_of_ne h1
+    by_cases h2 : a = "time_step"
+    · subst h2; simp [has_encState_time s hw]
+    · have e2 : (a == "time_step") = false := beq_false_of_ne h2
+      simp only [e1, e2, Bool.false_or]
+      by_cases hm : a ∈ stateFields
+      · have hc : stateFields.contains a = true := by simpa using hm
+        rw [hc, has_encState_attr s hw a hm, lookup_isSome_eq_contains]; rfl
+      · have hc : stateFields.contains a = false := by simpa using hm
+        have hnone := lookup_none_of_not_mem stateFields s.attrs hw a hm
+        have : (s.attrs.map Prod.fst).contains a = false := by
+          rw [← lookup_isSome_eq_contains, hnone]; rfl
+        rw [hc, this]; rfl
+
+/-- The class the reader matches a written state to is the class its populated attributes denote (`specClassK` looks at
+    the snapshot only: has a position?, which float attributes?). -/
+theorem matchClass_encState (s : St) (hw : s.wf = true) :
+    matchClass (encState s) = specClassK s.pos.isSome (s.attrs.map Prod.fst) := by
+  unfold matchClass specClassK
+  congr 1
+  congr 1
+  funext c
+  rw [usedFields_length s hw]
+  congr 1
+  apply List.all_congr rfl
+  intro a
+  exact fillsAttr_encState s hw a
+
+theorem normState_cls (s : St) (hw : s.wf = true) : (normState s).cls = s.specClass := by
+  simp [normState, St.specClass, matchClass_encState s hw]
+
+/-! ### initial states -/
+
+theorem map_lookup_keys {β : Type} (d : β) : ∀ (kvs : List (String × β)), (kvs.map Prod.fst).Nodup →
+    (kvs.map Prod.fst).map (fun n => (n, (kvs.lookup n).getD d)) = kvs
+  | [], _ => rfl
+  | (k, v) :: r, h => by
+    have hk : k ∉ r.map Prod.fst := (List.nodup_cons.mp h).1
+    have ih := map_lookup_keys d r (List.nodup_cons.mp h).2
+    simp only [List.map_cons, List.lookup_cons_self, Option.getD_some]
+    congr 1
+    conv => rhs; rw [← ih]
+    apply List.map_congr_left
+    intro n hn
+    have hne : (n == k) = false := beq_false_of_ne (fun e => hk (e ▸ hn))
+    simp only [List.lookup_cons, hne]
+
+theorem initFields_nodup : initFields.Nodup := by decide
+
+/-- a fully populated initial state is returned exactly -/
+theorem normInit_of_initFull (s : St) (h : s.initFull = true) : normInit s = s := by
+  cases s with
+  | mk cls t pos attrs =>
+    simp only [St.initFull, Bool.and_eq_true, beq_iff_eq] at h
+    obtain ⟨⟨⟨_, hc⟩, hp⟩, hk⟩ := h
+    have hnd : (attrs.map Prod.fst).Nodup := hk ▸ initFields_nodup
+    have := map_lookup_keys (FloatEOI.exact Dbl.zero) attrs hnd
+    rw [hk] at this
+    cases pos with
+    | none => simp at hp
+    | some q => simp [normInit, hc, this]
+
+theorem mem_lookup_of_wf (s : St) (hw : s.wf = true) (kv : String × FloatEOI) (hkv : kv ∈ s.attrs) :
+    s.attrs.lookup kv.1 = some kv.2 := by
+  have h := filterMap_lookup stateFields stateFields_nodup s.attrs hw
+  rw [← h] at hkv
+  obtain ⟨n, _, hn⟩ := List.mem_filterMap.mp hkv
+  cases hl : s.attrs.lookup n with
+  | none => simp [hl] at hn
+  | some v =>
+    simp only [hl, Option.map_some, Option.some.injEq] at hn
+    subst hn
+    exact hl
+
+theorem lookup_map_self {β : Type} (f : String → β) (n : String) : ∀ ks : List String, n ∈ ks →
+    (ks.map (fun k => (k, f k))).lookup n = some (f n)
+  | [], h => by simp at h
+  | k :: r, h => by
+    simp only [List.map_cons, List.lookup_cons]
+    cases hk : n == k with
+    | true => simp [beq_iff_eq.mp hk]
+    | false =>
+      have : n ∈ r := by
+        rcases List.mem_cons.mp h with e | e
+        · simp [e] at hk
+        · exact e
+      simpa using lookup_map_self f n r this
+
+theorem subOrdered_congr_keys {β γ : Type} : ∀ (all : List String) (kvs : List (String × β)) (kvs' : List (String × γ)),
+    kvs.map Prod.fst = kvs'.map Prod.fst → subOrdered kvs all = subOrdered kvs' all
+  | [], [], [], _ => rfl
+  | [], [], _ :: _, h => by simp at h
+  | [], _ :: _, [], h => by simp at h
+  | [], _ :: _, _ :: _, _ => rfl
+  | _ :: _, [], [], _ => rfl
+  | _ :: _, [], _ :: _, h => by simp at h
+  | _ :: _, _ :: _, [], h => by simp at h
+  | a :: as, kv :: r, kv' :: r', h => by
+    simp only [List.map_cons, List.cons.injEq] at h
+    have h1 := subOrdered_congr_keys as r r' h.2
+    have h2 := subOrdered_congr_keys as (kv :: r) (kv' :: r') (by simp [h.1, h.2])
+    simp only [subOrdered, h.1, h1, h2]
+
+theorem normInit_initFull (s : St) : (normInit s).initFull = true := by
+  have hk : ((normInit s).attrs).map Prod.fst = initFields := by
+    simp [normInit, List.map_map, Function.comp_def]
+  have hw : (normInit s).wf = true := by
+    unfold St.wf
+    rw [subOrdered_congr_keys stateFields (normInit s).attrs (initFields.map fun n => (n, ())) (by
+      rw [hk]; simp [List.map_map, Function.comp_def])]
+    decide
+  have hc : (normInit s).cls = "InitialState" := rfl
+  have hp : (normInit s).pos.isSome = true := rfl
+  simp only [St.initFull, hw, hc, hp, hk, beq_self_eq_true, Bool.and_self]
+
+theorem normState_canon (s : St) (hw : s.wf = true) : (normState s).canon = true := by
+  have h1 : (normState s).wf = true := hw
+  have h2 : (normState s).specClass = s.specClass := rfl
+  simp [St.canon, h1, h2, normState_cls s hw]
+
+theorem normState_of_canon (s : St) (h : s.canon = true) : normState s = s := by
+  simp only [St.canon, Bool.and_eq_true, beq_iff_eq] at h
+  have := normState_cls s h.1
+  cases s with
+  | mk cls t pos attrs =>
+    simp only [normState] at this ⊢
+    simp only [this]
+    exact congrArg (fun c => St.mk c t pos attrs) h.2.symm
+
+theorem signEnumOfField_mem (f : String) : signCountries.contains (signEnumOfField f) = true := by
+  unfold signEnumOfField
+  split <;> decide
+
+theorem map_id_of_mem {α : Type} (f : α → α) (l : List α) (h : ∀ a ∈ l, f a = a) : l.map f = l := by
+  conv => rhs; rw [← List.map_id l]
+  exact List.map_congr_left h
 
 theorem mapRes_ok {α β γ : Type} (f : α → β) (g : β → Res γ) (n : α → γ) (h : ∀ a, g (f a) = .ok (n a)) :
     ∀ l : List α, mapRes g (l.map f) = .ok (l.map n)
